@@ -553,6 +553,7 @@ static int fire(const std::string &cfgname, size_t depth, const char *replay = n
   hx::Explorer<Op> ex;
   ex.name = std::string("fire[") + cfg.name + fmt(" tz_min=%d start_utc_ms=%" PRId64 "]", cfg.tz_min, cfg.start_ms);
   ex.deadline_s = hx::now_s() + budget_s(600);
+  ex.max_viol_print = 1000000;   // the per-signature limit (3) is the only one wanted: a frequent signature must not hide a rare one
   ex.show = [](const Op &o) { return std::string(kOpNames[o.k]); };
   // menu restrictions are a function of the history alone (and are part of the canonical state)
   struct Lim { int skews = 0, steps = 0; bool need_pass = false; };
